@@ -20,7 +20,7 @@
    directory is removed (as an open directory does on Linux). *)
 From Coq Require Import Sorted.
 From Avfs Require Import Base PathModel MemFS MemFile World
-  Inv InvMutators InvPath InvWorld InvCheck InvConseq InvFailed.
+  Inv InvMutators InvPath InvWorld InvCheck InvConseq InvFailed InvCheckComplete.
 
 (* ---- the invariant holds in every reachable state ------------------------------------- *)
 Theorem C05_init : forall um, Inv (init_world_linux um).
@@ -86,9 +86,13 @@ Proof.
   repeat split; auto; try apply C. exact (dir_infos_names _ d (inv_heap IW)).
 Qed.
 
-(* the executable check run by the differential harness is sound *)
-Theorem C05_check_sound : forall w, inv_check w = true -> Inv w.
-Proof. exact inv_check_sound. Qed.
+(* the executable check run by the differential harness decides the invariant ... *)
+Theorem C05_check_iff : forall w, inv_check w = true <-> Inv w.
+Proof. exact inv_check_iff. Qed.
+
+(* ... so on the model side of the fsinv stream it prints 1 after every call of every history *)
+Theorem C05_reach_check : forall um cs, inv_check (fst (wrun (init_world_linux um) cs)) = true.
+Proof. intros um cs. apply inv_check_complete, Inv_reach. Qed.
 
 (* ---- non-vacuity ---------------------------------------------------------------------------- *)
 Definition sl : N := 47. Definition a_ : N := 97. Definition b_ : N := 98. Definition c_ : N := 99.
